@@ -2,6 +2,7 @@
 package reads
 
 import (
+	"context"
 	"database/sql"
 	"errors"
 	"flag"
@@ -71,12 +72,23 @@ type chain struct {
 	Gt     int
 	Order  string // "" asc desc
 	Calls  []call
+	Scope  string // how the condition is supplied: "" Where; plain | session | withctx: through a Scopes function
 }
 
 func (c chain) apply(db *gorm.DB) *gorm.DB {
 	tx := db.Session(&gorm.Session{})
 	if c.CondOn {
-		tx = tx.Where("v > ?", c.Gt)
+		gt := c.Gt
+		switch c.Scope {
+		case "plain":
+			tx = tx.Scopes(func(d *gorm.DB) *gorm.DB { return d.Where("v > ?", gt) })
+		case "session":
+			tx = tx.Scopes(func(d *gorm.DB) *gorm.DB { return d.Session(&gorm.Session{}).Where("v > ?", gt) })
+		case "withctx":
+			tx = tx.Scopes(func(d *gorm.DB) *gorm.DB { return d.WithContext(context.Background()).Where("v > ?", gt) })
+		default:
+			tx = tx.Where("v > ?", gt)
+		}
 	}
 	switch c.Order {
 	case "asc":
@@ -179,7 +191,7 @@ func (e *env) observe(c chain, batchSizes []int) hx.M {
 		o["pluck"], o["pluck_err"] = nz(ids), ec(res.Error)
 	}
 	// Count (without limit / offset), single-record finders (no order/limit/offset of the user's)
-	bare := chain{CondOn: c.CondOn, Gt: c.Gt}
+	bare := chain{CondOn: c.CondOn, Gt: c.Gt, Scope: c.Scope}
 	{
 		var n int64
 		res := bare.apply(e.db).Model(&R{}).Count(&n)
@@ -208,7 +220,7 @@ func (e *env) observe(c chain, batchSizes []int) hx.M {
 		o["scan_prim"], o["scan_prim_err"] = n, ec(res.Error)
 	}
 	// FindInBatches (no user Order): limit/offset calls apply
-	bc := chain{CondOn: c.CondOn, Gt: c.Gt, Calls: c.Calls}
+	bc := chain{CondOn: c.CondOn, Gt: c.Gt, Calls: c.Calls, Scope: c.Scope}
 	bobs := []hx.M{}
 	for _, bs := range batchSizes {
 		var out []R
@@ -256,7 +268,7 @@ func callsJ(c []call) []hx.M {
 
 func event(caseNo int, t []trow, c chain, o hx.M) hx.M {
 	return hx.M{"ev": "Read", "case": caseNo, "table": tableJ(t), "cond": hx.M{"on": c.CondOn, "gt": c.Gt}, "order": c.Order,
-		"calls": callsJ(c.Calls), "obs": o}
+		"calls": callsJ(c.Calls), "scope": c.Scope, "obs": o}
 }
 
 func init() {
@@ -345,7 +357,7 @@ func random(args []string) error {
 				return err
 			}
 		}
-		c := chain{CondOn: r.Intn(2) == 0, Gt: r.Intn(5), Order: []string{"", "asc", "desc"}[r.Intn(3)]}
+		c := chain{CondOn: r.Intn(2) == 0, Gt: r.Intn(7), Order: []string{"", "asc", "desc"}[r.Intn(3)], Scope: []string{"", "", "plain", "session", "withctx"}[r.Intn(5)]}
 		for k := 0; k < r.Intn(5); k++ {
 			v := 1 + r.Intn(8)
 			if r.Intn(4) == 0 {
